@@ -1,11 +1,832 @@
-// Package c06 is the correspondence/oracle harness for property C06.
+// Package c06 is the correspondence/oracle harness for property C06:
+// "PDF object syntax has one meaning for both parsers".
+//
+// Ops (see lean/TabulaModel/Handlers/C06.lean for the reply grammar):
+//   c06.obj <hex>   core.NewParser(r).ParseObject() repeated to EOF/error
+//   c06.cs  <hex>   contentstream.NewParser(b).Parse()
+//   c06.lex <hex>   core.NewLexer(r).NextToken() repeated to EOF/error
+//
+// Oracles (independent of the Lean model; expectations come from the harness's
+// own trees and its own ISO 32000 printer):
+//   C06/core-roundtrip-<type>  print(tree) parsed by the document-level parser ≠ tree
+//   C06/cs-roundtrip-<type>    print(operand) parsed by the content-stream parser ≠ operand
+//   C06/cs-grouping            operators / operand counts of a printed program not preserved
+//   C06/cs-operand-leak        operands of one Parse call show up in the next
+//   C06/parsers-disagree       both parsers accept an operand and give different values
+//   C06/ref-lookahead          "a b R" / "a b" sequences not grouped as written
+//   C06/panic, C06/hang
 package c06
 
-import "verifharness/hx"
+import (
+	"bufio"
+	"context"
+	"encoding/hex"
+	"encoding/json"
+	"fmt"
+	"os"
+	"os/exec"
+	"path/filepath"
+	"strconv"
+	"strings"
+	"time"
+
+	"verifharness/hx"
+)
 
 func init() { hx.Register("C06", Run, Replay) }
 
-// Run is not built yet for this property.
-func Run(c *hx.Ctx) { c.Note("C06: harness not built") }
+// ---- comparing trees -----------------------------------------------------------
 
-func Replay(c *hx.Ctx, kase map[string]interface{}) {}
+// firstDiff returns the kind name of the expected node at the first place where
+// got differs from exp ("" if equal).
+func firstDiff(exp, got *node) string {
+	if got == nil || exp.k != got.k {
+		return kindName[exp.k]
+	}
+	switch exp.k {
+	case kBool:
+		if exp.b != got.b {
+			return "bool"
+		}
+	case kInt:
+		if exp.i != got.i {
+			return "int"
+		}
+	case kReal:
+		if canonReal(exp.neg, exp.digs, exp.scale) != canonReal(got.neg, got.digs, got.scale) {
+			return "real"
+		}
+	case kStr:
+		if string(exp.s) != string(got.s) {
+			return "string"
+		}
+	case kName:
+		if string(exp.s) != string(got.s) {
+			return "name"
+		}
+	case kRef:
+		if exp.num != got.num || exp.gen != got.gen {
+			return "ref"
+		}
+	case kArr:
+		for i, e := range exp.arr {
+			if i >= len(got.arr) {
+				return "array"
+			}
+			if d := firstDiff(e, got.arr[i]); d != "" {
+				return d
+			}
+		}
+		if len(exp.arr) != len(got.arr) {
+			return "array"
+		}
+	case kDict:
+		gm := map[string]*node{}
+		for _, e := range got.dict {
+			gm[string(e.key)] = e.val
+		}
+		for _, e := range exp.dict {
+			g, ok := gm[string(e.key)]
+			if !ok {
+				return "dict"
+			}
+			if d := firstDiff(e.val, g); d != "" {
+				return d
+			}
+		}
+		if len(exp.dict) != len(got.dict) {
+			return "dict"
+		}
+	}
+	return ""
+}
+
+func seqDiff(exp, got []*node) string {
+	for i, e := range exp {
+		if i >= len(got) {
+			return kindName[e.k]
+		}
+		if d := firstDiff(e, got[i]); d != "" {
+			return d
+		}
+	}
+	if len(got) > len(exp) {
+		return "extra"
+	}
+	return ""
+}
+
+// ---- the checks -----------------------------------------------------------------
+
+type runner struct {
+	c *hx.Ctx
+}
+
+func short(b []byte) string {
+	if len(b) > 160 {
+		return fmt.Sprintf("%q…(%d bytes)", b[:160], len(b))
+	}
+	return fmt.Sprintf("%q", b)
+}
+
+// checkObjects: the document-level parser must read back exactly the objects written.
+func (x runner) checkObjects(in []byte, exp []*node, label string, keyPrefix string, emit bool) outcome {
+	c := x.c
+	o := runObj(in)
+	if emit && !o.hang && o.panic_ == "" {
+		c.Op("c06.obj "+hx.Hex(in), o.line)
+	}
+	if abnormal(c, o, "obj", in) {
+		return o
+	}
+	want := objsLine(exp, "eof")
+	d := ""
+	if o.line != want {
+		d = seqDiff(exp, o.objs)
+		if d == "" {
+			d = "end"
+		}
+	}
+	var key string
+	switch {
+	case keyPrefix == "C06/ref-lookahead":
+		key = keyPrefix
+	case d != "":
+		key = keyPrefix + d
+	default:
+		key = keyPrefix + kindName[exp[0].k]
+	}
+	c.Check(key, d == "", map[string]interface{}{"kind": "obj", "input": hx.Hex(in), "expect": want, "key": key, "policy": label},
+		func() string { return fmt.Sprintf("policy %s: wrote %s, parser read %s from %s", label, want, o.line, short(in)) })
+	return o
+}
+
+// checkProgram: the content-stream parser must give back the operations written.
+func (x runner) checkProgram(in []byte, exp []operation, label string, emit bool) outcome {
+	c := x.c
+	runCS([]byte("q")) // an operator empties the operand stack: every case starts clean
+	o := runCS(in)
+	if emit && !o.hang && o.panic_ == "" {
+		c.Op("c06.cs "+hx.Hex(in), o.line)
+	}
+	if abnormal(c, o, "cs", in) {
+		return o
+	}
+	want := opsLine(exp)
+	kase := func(key string) map[string]interface{} {
+		return map[string]interface{}{"kind": "cs", "input": hx.Hex(in), "expect": want, "key": key, "policy": label}
+	}
+	grouping := o.ok && len(o.ops) == len(exp)
+	if grouping {
+		for i := range exp {
+			if o.ops[i].op != exp[i].op || len(o.ops[i].operands) != len(exp[i].operands) {
+				grouping = false
+			}
+		}
+	}
+	// an outright rejection of a legal stream is reported under the type of the
+	// first operand kind that the parser cannot read alone, else as grouping
+	if !o.ok {
+		key := "C06/cs-grouping"
+		c.Check(key, false, kase(key), func() string {
+			return fmt.Sprintf("policy %s: legal content stream rejected: %s (wrote %s)", label, short(in), want)
+		})
+		return o
+	}
+	c.Check("C06/cs-grouping", grouping, kase("C06/cs-grouping"), func() string {
+		return fmt.Sprintf("policy %s: wrote %s, parser grouped %s from %s", label, want, o.line, short(in))
+	})
+	if !grouping {
+		return o
+	}
+	for i := range exp {
+		d := seqDiff(exp[i].operands, o.ops[i].operands)
+		key := "C06/cs-roundtrip-" + d
+		if d == "" {
+			key = "C06/cs-roundtrip"
+		}
+		c.Check(key, d == "", kase(key), func() string {
+			return fmt.Sprintf("policy %s: operation %d wrote %s, parser read %s from %s", label, i, opsLine(exp[i:i+1]), opsLine(o.ops[i:i+1]), short(in))
+		})
+	}
+	return o
+}
+
+// checkAgree: whatever both parsers accept as ONE operand must get ONE value.
+func (x runner) checkAgree(operand []byte) {
+	c := x.c
+	a := runObj(operand)
+	runCS([]byte("q"))
+	b := runCS(append(append([]byte{}, operand...), []byte(" Do")...))
+	if a.hang || b.hang || a.panic_ != "" || b.panic_ != "" {
+		return
+	}
+	bothAccept := a.end == "eof" && len(a.objs) == 1 && b.ok && len(b.ops) == 1 && b.ops[0].op == "Do" && len(b.ops[0].operands) == 1
+	if !bothAccept {
+		c.Count("agree:not-both-accept")
+		return
+	}
+	c.Count("agree:both-accept")
+	av, bv := a.objs[0].sexpr(), b.ops[0].operands[0].sexpr()
+	c.Check("C06/parsers-disagree", av == bv, map[string]interface{}{"kind": "agree", "input": hx.Hex(operand)}, func() string {
+		return fmt.Sprintf("operand %s: document parser %s, content-stream parser %s", short(operand), av, bv)
+	})
+}
+
+// ---- generators -------------------------------------------------------------------
+
+var operators = []string{"q", "Q", "cm", "w", "J", "j", "M", "d", "ri", "i", "gs", "m", "l", "c", "v", "y", "h", "re",
+	"S", "s", "f", "F", "f*", "B", "B*", "b", "b*", "n", "W", "W*", "BT", "ET", "Tc", "Tw", "Tz", "TL", "Tf", "Tr", "Ts",
+	"Td", "TD", "Tm", "T*", "Tj", "TJ", "'", "\"", "d0", "d1", "CS", "cs", "SC", "SCN", "sc", "scn", "G", "g", "RG", "rg",
+	"K", "k", "sh", "Do", "MP", "DP", "BMC", "BDC", "EMC", "BX", "EX"}
+
+func randProgram(r *hx.Rng, maxOps int) []operation {
+	n := r.Range(1, maxOps)
+	ops := make([]operation, n)
+	for i := range ops {
+		op := hx.Pick(r, operators)
+		if r.Chance(1, 4) {
+			op = hx.Pick(r, []string{"'", "\"", "T*", "TJ", "Tj", "BDC", "f", "n", "d0"})
+		}
+		ops[i].op = op
+		k := r.Intn(4)
+		if r.Chance(1, 6) {
+			k = r.Range(4, 7)
+		}
+		for j := 0; j < k; j++ {
+			ops[i].operands = append(ops[i].operands, randTree(r, r.Range(1, 3), true))
+		}
+	}
+	return ops
+}
+
+var soup = []string{"[", "]", "<<", ">>", "<", ">", "(", ")", "/", "#", "%", "\\", "0", "1", "7", "9", "12", ".", "+", "-",
+	"R", "true", "false", "null", "obj", "endobj", "stream", "endstream", " ", "\n", "\r", "\t", "\x00", "\f", "a", "f", "n", "t",
+	"'", "\"", "*", "{", "}", "A", "F", "41", "#41", "#4", "#zz", "/A", "(a)", "<41>", "<4>", "<4 1>", "\\(", "\\)", "\\0", "\\101",
+	"\\\r\n", "\\\n", "1 0 R", "1 0", "Tj", "T*", "d0", "BT", "1.5", "-.5", "5.", "00", "\xff", "\x80", "%c\n", "%c\r", "true]", "null>>"}
+
+func randSoup(r *hx.Rng) []byte {
+	var b []byte
+	for n := r.Range(1, 12); n > 0; n-- {
+		b = append(b, hx.Pick(r, soup)...)
+	}
+	return b
+}
+
+func mutate(r *hx.Rng, in []byte) []byte {
+	b := append([]byte{}, in...)
+	for n := r.Range(1, 3); n > 0; n-- {
+		if len(b) == 0 {
+			b = append(b, hx.Pick(r, soup)...)
+			continue
+		}
+		i := r.Intn(len(b))
+		switch r.Intn(6) {
+		case 0: // delete
+			b = append(b[:i], b[i+1:]...)
+		case 1: // insert a syntax fragment
+			frag := hx.Pick(r, soup)
+			b = append(b[:i], append([]byte(frag), b[i:]...)...)
+		case 2: // replace
+			b[i] = hx.Pick(r, []byte("()<>[]/%#\\ \r\n019.+-RtfnA'\"*"))
+		case 3: // truncate
+			b = b[:i]
+		case 4: // duplicate a slice
+			j := i + r.Intn(len(b)-i)
+			b = append(b[:j], append(append([]byte{}, b[i:j]...), b[j:]...)...)
+		default: // swap
+			j := r.Intn(len(b))
+			b[i], b[j] = b[j], b[i]
+		}
+	}
+	return b
+}
+
+// comparable reports whether every number token of a raw input is certain to be
+// read exactly (≤ 15 significant digits, or an integer inside int64): beyond
+// that the value is strconv's rounding, which the property does not speak about.
+func comparable(in []byte) bool {
+	i := 0
+	for i < len(in) {
+		if !(in[i] >= '0' && in[i] <= '9') && in[i] != '.' {
+			i++
+			continue
+		}
+		j, digits, dot := i, 0, false
+		for j < len(in) && ((in[j] >= '0' && in[j] <= '9') || in[j] == '.') {
+			if in[j] == '.' {
+				dot = true
+			} else {
+				digits++
+			}
+			j++
+		}
+		if dot && digits > 15 {
+			return false
+		}
+		if !dot && digits > 18 {
+			if _, err := strconv.ParseInt(string(in[i:j]), 10, 64); err != nil {
+				return false
+			}
+		}
+		i = j
+	}
+	return true
+}
+
+// ---- the malformed stream runs in child processes ----------------------------------
+
+type rawCase struct {
+	K  string `json:"k"` // obj | cs | lex
+	In string `json:"in"`
+}
+
+func evalRaw(k string, in []byte) outcome {
+	switch k {
+	case "agree":
+		// both parsers on the same bytes (the content-stream one needs an operator behind the operand)
+		a := parseObjects(in)
+		b := parseContent(append(append([]byte{}, in...), " Do"...))
+		return outcome{line: "A " + a.line + " | " + b.line}
+	case "obj":
+		return parseObjects(in)
+	case "cs":
+		return parseContent(in)
+	default:
+		return lexTokens(in)
+	}
+}
+
+// runBatchChild is the child side: one result line per case on stdout.
+func runBatchChild(cases []interface{}) {
+	w := bufio.NewWriter(os.Stdout)
+	for i, ci := range cases {
+		m, _ := ci.(map[string]interface{})
+		k, _ := m["k"].(string)
+		s, _ := m["in"].(string)
+		in := unhex(s)
+		var o outcome
+		if p := hx.Safe(func() { o = evalRaw(k, in) }); p != "" {
+			o = outcome{line: "panic " + hex.EncodeToString([]byte(p))}
+		}
+		fmt.Fprintf(w, "R %d %s\n", i, o.line)
+		w.Flush()
+	}
+}
+
+func unhex(s string) []byte {
+	if s == "-" || s == "" {
+		return nil
+	}
+	b, _ := hex.DecodeString(s)
+	return b
+}
+
+// runBatch evaluates the cases in child processes of this binary; a case that
+// does not answer within the watchdog is recorded as a hang, a case that kills
+// the child as a panic, and the batch continues behind it.
+func (x runner) runBatch(cases []rawCase) {
+	c := x.c
+	exe, err := os.Executable()
+	if err != nil {
+		c.Note("C06: cannot locate own binary (%v); malformed stream skipped", err)
+		return
+	}
+	dir, err := os.MkdirTemp("", "c06-batch-")
+	if err != nil {
+		c.Note("C06: %v; malformed stream skipped", err)
+		return
+	}
+	defer os.RemoveAll(dir)
+	start := 0
+	for start < len(cases) {
+		file := filepath.Join(dir, "batch.json")
+		payload := map[string]interface{}{"seed": c.Seed, "tier": c.Tier,
+			"case": map[string]interface{}{"kind": "batch", "cases": cases[start:]}}
+		b, _ := json.Marshal(payload)
+		os.WriteFile(file, b, 0o644)
+		ctx, cancel := context.WithCancel(context.Background())
+		cmd := exec.CommandContext(ctx, exe, "replay", "C06", "--case", file, "--out", filepath.Join(dir, "out"))
+		cmd.Env = append(os.Environ(), "GOMEMLIMIT=1GiB")
+		stdout, _ := cmd.StdoutPipe()
+		if err := cmd.Start(); err != nil {
+			cancel()
+			c.Note("C06: cannot start child (%v); malformed stream skipped", err)
+			return
+		}
+		lines := make(chan string, 64)
+		go func() {
+			sc := bufio.NewScanner(stdout)
+			sc.Buffer(make([]byte, 1<<20), 1<<26)
+			for sc.Scan() {
+				lines <- sc.Text()
+			}
+			close(lines)
+		}()
+		done := 0
+		stalled, died := false, false
+	loop:
+		for start+done < len(cases) {
+			select {
+			case ln, ok := <-lines:
+				if !ok {
+					died = true
+					break loop
+				}
+				if !strings.HasPrefix(ln, "R ") {
+					continue
+				}
+				f := strings.SplitN(ln, " ", 3)
+				idx, _ := strconv.Atoi(f[1])
+				if idx != done || len(f) < 3 {
+					continue
+				}
+				rc := cases[start+done]
+				in := unhex(rc.In)
+				if strings.HasPrefix(f[2], "panic") {
+					abnormal(c, outcome{panic_: string(unhex(strings.TrimPrefix(f[2], "panic ")))}, rc.K, in)
+				} else if rc.K == "agree" {
+					x.agreeLine(in, strings.TrimPrefix(f[2], "A "))
+				} else {
+					c.Check("C06/panic", true, nil, nil)
+					c.Check("C06/hang", true, nil, nil)
+					c.Op("c06."+rc.K+" "+rc.In, f[2])
+					c.Count("raw-" + rc.K + ":" + lastWord(f[2]))
+				}
+				c.Case("raw:"+rc.K+rc.In, !strings.HasSuffix(f[2], "err") && f[2] != "eof" && f[2] != "ok")
+				done++
+			case <-time.After(watchdog + time.Second):
+				stalled = true
+				break loop
+			}
+		}
+		cancel()
+		cmd.Wait()
+		if start+done < len(cases) && (stalled || died) {
+			rc := cases[start+done]
+			in := unhex(rc.In)
+			if stalled {
+				abnormal(c, outcome{hang: true}, rc.K, in)
+			} else {
+				abnormal(c, outcome{panic_: "child process died (fatal error / out of memory)"}, rc.K, in)
+			}
+			done++
+		}
+		start += done
+	}
+}
+
+// agreeLine judges one "core result | content-stream result" pair of the raw stream: if the
+// document parser read exactly one object and the content-stream parser exactly one
+// operation Do with one operand, the two values must be the same.
+func (x runner) agreeLine(in []byte, line string) {
+	c := x.c
+	parts := strings.SplitN(line, " | ", 2)
+	if len(parts) != 2 {
+		return
+	}
+	cf := strings.Fields(parts[0])
+	sf := strings.Fields(parts[1])
+	if len(cf) != 2 || cf[1] != "eof" || len(sf) != 2 || sf[0] != "ok" || !strings.HasPrefix(sf[1], "446f(") || !strings.HasSuffix(sf[1], ")") {
+		c.Count("raw-agree:not-both-accept")
+		return
+	}
+	operand := sf[1][len("446f(") : len(sf[1])-1]
+	// one operand only: no top-level comma (commas inside [] or <> belong to the operand)
+	depth, single := 0, true
+	for _, ch := range operand {
+		switch ch {
+		case '[', '<':
+			depth++
+		case ']', '>':
+			depth--
+		case ',':
+			if depth == 0 {
+				single = false
+			}
+		}
+	}
+	if !single || operand == "" {
+		c.Count("raw-agree:not-both-accept")
+		return
+	}
+	c.Count("raw-agree:both-accept")
+	c.Check("C06/parsers-disagree", cf[0] == operand, map[string]interface{}{"kind": "agree", "input": hx.Hex(in)}, func() string {
+		return fmt.Sprintf("operand %s: document parser %s, content-stream parser %s", short(in), cf[0], operand)
+	})
+}
+
+func lastWord(s string) string {
+	if i := strings.LastIndexByte(s, ' '); i >= 0 {
+		s = s[i+1:]
+	}
+	if s == "err" || s == "eof" {
+		return s
+	}
+	return "ok"
+}
+
+// ---- Run --------------------------------------------------------------------------------
+
+// stage lets a developer run part of the stream: C06_STAGES=5,7 (default: all).
+func stage(n int) bool {
+	v := os.Getenv("C06_STAGES")
+	if v == "" {
+		return true
+	}
+	for _, f := range strings.Split(v, ",") {
+		if f == strconv.Itoa(n) {
+			return true
+		}
+	}
+	return false
+}
+
+func Run(c *hx.Ctx) {
+	x := runner{c}
+	c.Rep.Rule = "object trees: every container skeleton to depth 4 (3 in quick) with ≤2 children per array/dict, leaves cycled over a 3-atom alphabet per type, plus random trees to depth 8 with strings/names over all 256 bytes, int64 limits and dyadic reals; each printed by an ISO 32000-1 §7.2-7.3 printer under 10 spelling policies (minimal/maximal white space, comments, CR/LF/CRLF, literal/escaped/octal/hex strings, #-escaped names, random mix); random operator programs (≤60 operations, all operand types, incl. ' \" T* d0); integer/reference sequences; plus a malformed stream (mutated prints and token soup) compared with the model by value-or-error only. non-trivial = parsed without error to a non-empty result."
+
+	// 1. exhaustive container skeletons ------------------------------------------------
+	depth := c.N(3, 4)
+	sh := shapes(depth)
+	cyc := &atomCycle{}
+	cycNoRef := &atomCycle{noRef: true}
+	nsh := 0
+	for si, s := range sh {
+		if poisoned || !stage(1) {
+			break
+		}
+		pols := fixedPolicies(c.Rng.Fork(uint64(si)))
+		// quick: every skeleton under every policy up to depth 3; thorough: depth 4
+		// skeletons rotate through the policies (every skeleton under ≥ 2 of them)
+		use := pols
+		if depth == 4 && s.depthOf() == 4 {
+			use = []policy{pols[si%len(pols)], pols[(si/len(pols)+3)%len(pols)]}
+		}
+		for _, p := range use {
+			t := s.fill(cyc, si)
+			in := printObjects(p, []*node{t})
+			o := x.checkObjects(in, []*node{t}, p.label, "C06/core-roundtrip-", true)
+			c.Case("t:"+t.sexpr()+p.label, o.end == "eof")
+			c.Count("policy:" + p.label)
+			c.Count(fmt.Sprintf("tree-depth:%d", t.depth()))
+			// the same skeleton as a content-stream operand (no references there)
+			t2 := s.fill(cycNoRef, si)
+			prog := []operation{{op: operators[(si+len(p.label))%len(operators)], operands: []*node{t2}}}
+			x.checkProgram(printOps(p, prog), prog, p.label, true)
+			if si%7 == 0 {
+				x.checkAgree(printObjects(p, []*node{t2}))
+			}
+		}
+		nsh++
+	}
+	c.Rep.Exhaustive = !poisoned
+	c.Note("skeletons enumerated: %d (depth ≤ %d)", nsh, depth)
+
+	// 2. every atom of every type under every policy, all 256 bytes in strings and names ---
+	for b := 0; b < 256 && !poisoned && stage(2); b++ {
+		r := c.Rng.Fork(uint64(1000 + b))
+		for pi, p := range fixedPolicies(r) {
+			for _, t := range []*node{
+				{k: kStr, s: []byte{byte(b)}}, {k: kName, s: []byte{byte(b)}},
+				{k: kStr, s: []byte{'x', byte(b), '7'}}, {k: kName, s: []byte{'x', byte(b), 'A', byte(b)}},
+			} {
+				in := printObjects(p, []*node{t})
+				x.checkObjects(in, []*node{t}, p.label, "C06/core-roundtrip-", pi < 3 || c.Thorough())
+				prog := []operation{{op: "Tj", operands: []*node{t}}}
+				x.checkProgram(printOps(p, prog), prog, p.label, pi < 3 || c.Thorough())
+				x.checkAgree(in)
+				c.Case("b:"+t.sexpr()+p.label, true)
+			}
+		}
+	}
+	for i, v := range limitInts {
+		if !stage(2) {
+			break
+		}
+		r := c.Rng.Fork(uint64(2000 + i))
+		for _, p := range fixedPolicies(r) {
+			t := mkInt(v)
+			x.checkObjects(printObjects(p, []*node{t}), []*node{t}, p.label, "C06/core-roundtrip-", true)
+			prog := []operation{{op: "w", operands: []*node{t}}}
+			x.checkProgram(printOps(p, prog), prog, p.label, true)
+			c.Case("i:"+t.sexpr()+p.label, true)
+		}
+	}
+
+	// 3. random trees to depth 8 -------------------------------------------------------
+	for i := 0; i < c.N(400, 40000) && !poisoned && stage(3); i++ {
+		r := c.Rng.Fork(uint64(10000 + i))
+		p := randomPolicy(r)
+		if i%3 == 0 {
+			p = fixedPolicies(r)[i/3%10]
+		}
+		n := r.Range(1, 3)
+		var ts []*node
+		for j := 0; j < n; j++ {
+			ts = append(ts, randTree(r, r.Range(1, 8), false))
+		}
+		in := printObjects(p, ts)
+		o := x.checkObjects(in, ts, p.label, "C06/core-roundtrip-", true)
+		c.Case("r:"+objsLine(ts, ""), o.end == "eof")
+		c.Count("random-tree-policy:" + p.label)
+		if !ts[0].hasRef() {
+			x.checkAgree(printObjects(p, ts[:1]))
+		}
+	}
+
+	// 4. integers and references side by side ------------------------------------------
+	for i := 0; i < c.N(300, 20000) && !poisoned && stage(4); i++ {
+		r := c.Rng.Fork(uint64(40000 + i))
+		p := randomPolicy(r)
+		p.numDeco = false
+		var seq []*node
+		for n := r.Range(1, 6); n > 0; n-- {
+			if r.Chance(2, 5) {
+				seq = append(seq, mkRef(int64(r.Intn(1000)), int64(r.Intn(3))))
+			} else if r.Chance(1, 6) {
+				seq = append(seq, hx.Pick(r, []*node{mkName("R"), mkStr("R"), mkBool(true), {k: kNull}}))
+			} else {
+				seq = append(seq, mkInt(int64(r.Intn(1000))))
+			}
+		}
+		var ts []*node
+		switch r.Intn(3) {
+		case 0:
+			ts = seq
+		case 1:
+			ts = []*node{mkArr(seq...)}
+		default:
+			d := &node{k: kDict}
+			for j, e := range seq {
+				d.dict = append(d.dict, entry{[]byte(fmt.Sprintf("K%d", j)), e})
+			}
+			ts = []*node{d, mkInt(int64(r.Intn(10))), mkInt(int64(r.Intn(10)))}
+		}
+		in := printObjects(p, ts)
+		o := x.checkObjects(in, ts, p.label, "C06/ref-lookahead", true)
+		c.Case("l:"+objsLine(ts, ""), o.end == "eof")
+	}
+
+	// 5. operator programs -----------------------------------------------------------------
+	for i := 0; i < c.N(250, 20000) && !poisoned && stage(5); i++ {
+		r := c.Rng.Fork(uint64(70000 + i))
+		p := randomPolicy(r)
+		if i%2 == 0 {
+			p = fixedPolicies(r)[i/2%10]
+		}
+		maxOps := 12
+		if i%10 == 0 {
+			maxOps = 60
+		}
+		prog := randProgram(r, maxOps)
+		o := x.checkProgram(printOps(p, prog), prog, p.label, true)
+		c.Case("p:"+opsLine(prog), o.ok)
+		c.Count("program-policy:" + p.label)
+		c.Count(fmt.Sprintf("program-ops:%d0s", len(prog)/10))
+	}
+
+	// 6. operands must not travel from one Parse call to the next -----------------------------
+	for i := 0; i < c.N(20, 200) && !poisoned && stage(6); i++ {
+		r := c.Rng.Fork(uint64(90000 + i))
+		p := randomPolicy(r)
+		var dangling []*node
+		for n := r.Range(1, 4); n > 0; n-- {
+			dangling = append(dangling, randTree(r, 2, true))
+		}
+		first := printOps(p, []operation{{op: "q"}})
+		first = append(append(first, ' '), printObjects(p, dangling)...)
+		second := randProgram(r, 3)
+		x.checkLeak(first, printOps(p, second), second)
+	}
+
+	// 7. malformed / raw stream: value-or-error against the model only ---------------------------
+	if poisoned {
+		c.Note("run cut short after an in-process hang (a goroutine of the implementation is still spinning)")
+		return
+	}
+	if !stage(7) {
+		return
+	}
+	var raws []rawCase
+	nraw := c.N(1500, 120000)
+	skipped := 0
+	for i := 0; len(raws) < nraw && i < nraw*3; i++ {
+		r := c.Rng.Fork(uint64(200000 + i))
+		var in []byte
+		kinds := []string{"obj", "cs", "lex"}
+		k := kinds[i%3]
+		switch r.Intn(3) {
+		case 0:
+			in = randSoup(r)
+		case 1:
+			p := randomPolicy(r)
+			if k == "cs" {
+				in = mutate(r, printOps(p, randProgram(r, 4)))
+			} else {
+				in = mutate(r, printObjects(p, []*node{randTree(r, 4, false)}))
+			}
+		default:
+			p := randomPolicy(r)
+			p.sep = sepMinimal
+			in = mutate(r, printObjects(p, []*node{randTree(r, 3, k == "cs"), randAtom(r, k == "cs")}))
+			if k == "cs" {
+				in = append(in, " Tj"...)
+			}
+		}
+		if !comparable(in) {
+			skipped++
+			continue
+		}
+		raws = append(raws, rawCase{K: k, In: hx.Hex(in)})
+		if k == "obj" && i%2 == 0 {
+			raws = append(raws, rawCase{K: "agree", In: hx.Hex(in)})
+		}
+	}
+	// the two defect witnesses of DESIGN §7 always travel with the stream
+	for _, w := range []string{"[ 1 ) ]", "<< /A > /B 2 >>", "<< ", "<<", "<4> Tj", "[true] TJ", "% c\nq"} {
+		raws = append(raws, rawCase{K: "obj", In: hx.HexS(w)}, rawCase{K: "cs", In: hx.HexS(w)}, rawCase{K: "lex", In: hx.HexS(w)})
+	}
+	c.Note("raw cases: %d (skipped %d with number tokens beyond exact range)", len(raws), skipped)
+	x.runBatch(raws)
+}
+
+func (s *shape) depthOf() int {
+	if s.leaf {
+		return 1
+	}
+	d := 0
+	for _, k := range s.kids {
+		if x := k.depthOf(); x > d {
+			d = x
+		}
+	}
+	return d + 1
+}
+
+// checkLeak: a stream that ends in operands without an operator, then another stream.
+func (x runner) checkLeak(first, second []byte, exp []operation) {
+	c := x.c
+	runCS([]byte("q"))
+	a := runCS(first)
+	b := runCS(second)
+	if abnormal(c, a, "cs", first) || abnormal(c, b, "cs", second) {
+		return
+	}
+	want := opsLine(exp)
+	c.Check("C06/cs-operand-leak", b.line == want,
+		map[string]interface{}{"kind": "leak", "first": hx.Hex(first), "input": hx.Hex(second), "expect": want},
+		func() string {
+			return fmt.Sprintf("after parsing %s, parsing %s gave %s, want %s", short(first), short(second), b.line, want)
+		})
+}
+
+// ---- Replay -------------------------------------------------------------------------------
+
+func Replay(c *hx.Ctx, kase map[string]interface{}) {
+	kind, _ := kase["kind"].(string)
+	if kind == "batch" {
+		cases, _ := kase["cases"].([]interface{})
+		runBatchChild(cases)
+		return
+	}
+	s, _ := kase["input"].(string)
+	in := unhex(s)
+	expect, _ := kase["expect"].(string)
+	key, _ := kase["key"].(string)
+	fail := func(k string, o outcome) {
+		c.Check(k, false, kase, func() string { return fmt.Sprintf("input %s: expected %s, got %s", short(in), expect, o.line) })
+	}
+	switch kind {
+	case "obj", "lex":
+		o := runObj(in)
+		if kind == "lex" {
+			o = runLex(in)
+		}
+		if abnormal(c, o, kind, in) {
+			return
+		}
+		if expect != "" && o.line != expect {
+			fail(key, o)
+		}
+	case "cs":
+		runCS([]byte("q"))
+		o := runCS(in)
+		if abnormal(c, o, kind, in) {
+			return
+		}
+		if expect != "" && o.line != expect {
+			fail(key, o)
+		}
+	case "leak":
+		f, _ := kase["first"].(string)
+		runCS([]byte("q"))
+		runCS(unhex(f))
+		o := runCS(in)
+		if o.line != expect {
+			fail("C06/cs-operand-leak", o)
+		}
+	case "agree":
+		runner{c}.checkAgree(in)
+	}
+}
